@@ -1649,7 +1649,12 @@ class FuncInterp(ModelsMixin, CallModelsMixin):
         star = star or [False] * len(pos)
         self._grp_push()
         n_other = 0
-        for t in sorted(fv.ty):
+        # instances of repository classes that define __call__ (BaseCurve, BaseFunction, FunctionEvaluator)
+        callable_inst = {t for t in fv.ty if t.startswith("inst:") and t[5:] in self.prog.classes and self.prog.lookup(t[5:], "__call__")}
+        if callable_inst:
+            bm = self.load_attr(fv.with_(ty=callable_inst), "__call__", st, node)
+            res = join(res, self.call_value(bm, pos, kw, st, node, star))
+        for t in sorted(fv.ty - callable_inst):
             if not t.startswith(("func:", "bfunc:", "cls:")) and t not in ("None", "int", "float", "number", "bool", "str", "tuple", "list", "set", "dict", "ndarray", "slice", "exc", "const", "range", "iter"):
                 n_other += 1
             if t.startswith("func:"):
